@@ -129,6 +129,17 @@ def term(c, anoms, anoms_ign, scores):
 def run(ctx):
     N = ctx.n(360, 5000)
     cases = list(corpus_cases()) + [gen_case(ctx.rng, i) for i in range(N)]
+    if not ctx.quick() and ctx.scale == 1:
+        # exhaustive small scope: EVERY loss table over {0,1,2} with two parameter values on n = 4 samples, CAPA, m = 2, M in {2,4}, penalties (1,2) and (0,3)
+        import itertools
+        for flat in itertools.product(range(3), repeat=8):
+            loss = [list(flat[2 * i:2 * i + 2]) for i in range(4)]
+            t = ts.saving_from_loss(loss, 4)
+            for M_, (ac_, ap_) in itertools.product((2, 4), ((1, 2), (0, 3))):
+                cases.append({"det": "CAPA", "stream": "exhaustive-n4", "n": 4, "m": 2, "M": M_, "ac": ac_, "bc": [0], "ap": ap_, "bp": [0],
+                              "ctabs": [t], "ptabs": [t]})
+        ctx.notes["exhaustive_small_scope"] = "all 6561 loss tables over {0,1,2}^(4x2) x M in {2,4} x two penalty pairs, CAPA, m = 2"
+        ctx.exhaustive = True
     terms, metas = [], []
     for c in cases:
         try:
